@@ -11,12 +11,12 @@ VARIABLE v
 
 Nodes == 0..5
 Signs == {1, -1}
-AngE == IF Quick THEN {-1074, -1000, -30, -1, 0, 1, 30, 900}
+AngE == IF Quick THEN {-1074, -30, -1, 0, 30, 900}
         ELSE {-1074, -1060, -1000, -200, -30, -2, -1, 0, 1, 2, 30, 200, 900}
 AngMM == {1, 3, 5}
 Angles == {<<s, 0, 0>> : s \in Signs} \cup {<<s, -1, 0>> : s \in Signs}
           \cup {<<s, mm, e>> : s \in Signs, mm \in AngMM, e \in AngE}
-PathAng == IF Quick THEN {<<1, 0, 0>>, <<-1, -1, 0>>, <<1, 1, 0>>, <<-1, 3, -30>>}
+PathAng == IF Quick THEN {<<1, 0, 0>>, <<-1, -1, 0>>, <<-1, 3, -1>>}
            ELSE {<<1, 0, 0>>, <<-1, -1, 0>>, <<1, 1, 0>>, <<-1, 3, -30>>, <<1, 5, 30>>, <<1, 1, -1000>>}
 
 VecCv(C) ==
